@@ -91,6 +91,8 @@ Failed(o) ==
   IF o.obs.panic THEN {"panic"} ELSE IF o.obs.timeout THEN {"timeout"} ELSE
   LET v == o.vec IN
     (IF ListOK(v.ref, v.targets, o.obs.tlist) /\ ListOK(v.ref, v.queries, o.obs.qlist) THEN {} ELSE {"C10-list-row"})
+    \cup (IF CliBadAt(o.obs, "list_") THEN {"C10-cli-wiring"} ELSE {})
+    \cup (IF HasOpts(v) /\ CliBad(o.obs.top) THEN {"C08-cli-wiring"} ELSE {})
     \cup (IF HasOpts(v) THEN TopFailed(v, o.obs.top) \cup CombosFailed(v, o.obs) ELSE {})
 
 Sig(o, cl) == cl \o (IF HasOpts(o.vec) /\ Len(o.vec.queries) > 1 THEN ":multi-query" ELSE "")
